@@ -123,12 +123,21 @@ def grep_forbidden(files):
 
 
 def lean_sources():
-    out = []
-    for root, _, files in os.walk(os.path.join(LEAN, "Wee")):
-        for f in files:
-            if f.endswith(".lean"):
-                out.append(os.path.join(root, f))
-    return out
+    """every Lean source the library root `Wee.lean` and the driver import, transitively (files nobody imports — e.g. work in
+    progress — are not part of the proof base and are not scanned)"""
+    seen, todo = set(), [os.path.join(LEAN, "Wee.lean"), os.path.join(LEAN, "Driver", "Main.lean")]
+    while todo:
+        fn = todo.pop()
+        if fn in seen or not os.path.exists(fn):
+            continue
+        seen.add(fn)
+        try:
+            src = open(fn).read()
+        except OSError:
+            continue
+        for m in re.finditer(r"^import\s+((?:Wee|Driver)[\w.]*)", src, re.M):
+            todo.append(os.path.join(LEAN, *m.group(1).split(".")) + ".lean")
+    return sorted(seen)
 
 
 def cargo_build(profile="debug", bins=False):
